@@ -70,7 +70,10 @@ class MultipleOf(Validator):
         try:
             if isinstance(multiple_of, float):
                 quotient = value / multiple_of
-                if max(abs(value), abs(quotient)) < _MIN_INTEGRAL_FLOAT:
+                if max(abs(value), abs(quotient)) < _MIN_INTEGRAL_FLOAT and (
+                    quotient or not value
+                ):
+                    # (a zero quotient of a non-zero value has underflowed)
                     is_multiple = int(quotient) == quotient
             else:
                 is_multiple = not value % multiple_of
